@@ -876,7 +876,33 @@ class SymRange(NativeObj):
             self.start, self.stop, self.step = a
 
     def _iterate(self, interp):
-        raise Unsupported("iteration over range with symbolic bounds (needs a loop invariant)")
+        """usable without an invariant only when the path condition fixes the trip count:
+        find a candidate count from a model, then PROVE it (entailment) before unrolling"""
+        ctx = interp.ctx
+        start, stop, step = ops.zint(self.start), ops.zint(self.stop), ops.zint(self.step)
+        if isinstance(self.step, int) and self.step == 0:
+            interp.raise_py("ValueError", "range() arg 3 must not be zero")
+        if not ctx.entails(step > 0):
+            raise Unsupported("range with symbolic step of unknown sign")
+        n = z3.Int("range!n")
+
+        def count_is(k):
+            # k = max(0, ceil((stop-start)/step)) for step > 0, stated without division
+            return z3.Or(z3.And(k == 0, stop <= start),
+                         z3.And(k > 0, start + (k - 1) * step < stop, start + k * step >= stop))
+
+        ctx.solver.push()
+        ctx.solver.add(count_is(n))
+        r = ctx.solver.check()
+        cand = None
+        if r == z3.sat:
+            cand = ctx.solver.model().eval(n, model_completion=True).as_long()
+        ctx.solver.pop()
+        if cand is None or cand > 4096:
+            raise Unsupported("iteration over range with symbolic bounds (needs a loop invariant)")
+        if not ctx.entails(count_is(z3.IntVal(cand))):
+            raise Unsupported("iteration over range whose trip count is not fixed by the path condition (needs a loop invariant)")
+        return [ops.simp(start + k * step) for k in range(cand)]
 
     def _len(self, interp):
         if self.step != 1:
